@@ -43,6 +43,7 @@ type Obl struct {
 	Where  string
 	Site   string // return site (ensures) — part of a finding's identity
 	MetricName, MetricKind, MetricPkg string
+	Try    bool // not claimed: attempted in the thorough tier only
 	Exec   *Exec
 	// result
 	Status  string // proved refuted unknown covered uncovered
@@ -322,13 +323,24 @@ func (e *Exec) emit(st *State, name, kind string, labels []string, goal T, where
 		e.recordTrivial(name, kind, labels, where)
 		return
 	}
-	o := &Obl{Unit: e.unit, Name: e.unit + "/" + name, Kind: kind, Labels: labels, PC: append([]T(nil), st.PC...), Goal: goal, Expect: "unsat", Path: st.PathID, Where: where, Exec: e}
-	key := o.Name + "|" + goal.S + "|" + pcKey(st.PC)
-	if e.oblSeen[key] {
-		return
+	pieces := SplitGoal(goal, 24)
+	pk := pcKey(st.PC)
+	for i, g := range pieces {
+		if g.Const && g.V == 1 {
+			continue
+		}
+		nm := e.unit + "/" + name
+		if len(pieces) > 1 {
+			nm = fmt.Sprintf("%s/%d", nm, i+1)
+		}
+		o := &Obl{Unit: e.unit, Name: nm, Kind: kind, Labels: labels, PC: append([]T(nil), st.PC...), Goal: g, Expect: "unsat", Path: st.PathID, Where: where, Exec: e}
+		key := o.Name + "|" + g.S + "|" + pk
+		if e.oblSeen[key] {
+			continue
+		}
+		e.oblSeen[key] = true
+		e.obls = append(e.obls, o)
 	}
-	e.oblSeen[key] = true
-	e.obls = append(e.obls, o)
 }
 
 func (e *Exec) recordTrivial(name, kind string, labels []string, where string) {
